@@ -61,6 +61,24 @@ theorem table_facts :
       ((Int.ofNat Generated.cordicGain) ^ 2 * gainNum 24 - 2 ^ 256 * gainDen 24) * 2 ^ 31 < 2 ^ 256 * gainDen 24) :=
   ⟨table_convergence, table_covers, table_entries_pinned, table_entry0.1, gain_fact⟩
 
+/-- the public constants of `transcendental.rs` (regenerated from the source on every run) are consistent truncations of one another and of the 128-bit
+`consts::PI` / `LOG2_E` / `E` they are shifted out of: `TWO_PI`, `PI`, `FRAC_PI_2`, `FRAC_PI_4` (the last is used by no function of the crate, so no accuracy
+theorem pins it; a mutation campaign found its shift amount unguarded) -/
+theorem public_constants :
+    Generated.twoPiBits = Int.ofNat (Generated.twoPiSrc >>> Generated.twoPiShift) ∧
+    Generated.piBits = Int.ofNat (Generated.piSrc >>> Generated.piShift) ∧
+    Generated.fracPi2Bits = Int.ofNat (Generated.fracPi2Src >>> Generated.fracPi2Shift) ∧
+    Generated.fracPi4Bits = Int.ofNat (Generated.fracPi4Src >>> Generated.fracPi4Shift) ∧
+    Generated.log2eBits = Int.ofNat (Generated.log2eSrc >>> Generated.log2eShift) ∧
+    Generated.eBits = Int.ofNat (Generated.eSrc >>> Generated.eShift) ∧
+    Generated.twoPiSrc = Generated.piSrc ∧ Generated.fracPi2Src = Generated.piSrc ∧ Generated.fracPi4Src = Generated.piSrc ∧
+    -- one 128-bit π, seen as U3F125 / U2F126 / U1F127 / U0F128-style shifts: 2π, π, π/2, π/4 on the I9F23 grid
+    Generated.twoPiShift + 1 = Generated.piShift ∧ Generated.piShift + 1 = Generated.fracPi2Shift ∧ Generated.fracPi2Shift + 1 = Generated.fracPi4Shift ∧
+    Generated.piBits / 2 = Generated.fracPi2Bits ∧ Generated.piBits / 4 = Generated.fracPi4Bits ∧ Generated.twoPiBits / 2 = Generated.piBits ∧
+    -- 3.1415926 ≤ PI < 3.1415927 on the 2^-23 grid
+    31415926 * 2 ^ 23 ≤ Generated.piBits * 10000000 ∧ Generated.piBits * 10000000 < 31415927 * 2 ^ 23 := by
+  decide
+
 example : Supp ⟨true, 128, 64⟩ ∧ inRange ⟨true, 128, 64⟩ (200 * 2 ^ 64) := ⟨⟨by decide, rfl, by decide, by decide⟩, by decide⟩
 
 end Sfx.C16
